@@ -10,7 +10,7 @@ from ..core import (AnalysisError, assigned_targets, body_nodes, call_name, dott
 from ..dtable import run_paths
 from ..flow import possibly_undefined, reaching_defs
 from ..normal import inline_temps
-from ..pattern import P, branches, guards_of, pmatch
+from ..pattern import P, branches, find, guards_of, pmatch
 from ..own import FuncInfo, Own
 
 SITE = 'tenpy/networks/site.py'
@@ -419,17 +419,57 @@ def check_jw_entry_points(prog, rep):
                       f.lineno)
     f = t.func('order_combine_term')
     rep.instance('JW-entry', {'function': 'order_combine_term'})
-    ok = False
-    for s in ast.walk(f):
-        if isinstance(s, ast.If) and unparse(s.test) == 't1[2] and t2[2]' and \
-                'overall_sign = -overall_sign' in unparse(s):
-            p = parent(s)
-            if isinstance(p, ast.If) and 't1[1] > t2[1]' in unparse(p.test):
-                ok = True
-    if not ok:
+    why = _swap_sign_defect(f)
+    if why:
         rep.violation('JW-entry', t, 'order_combine_term', 'swap-sign',
                       'each transposition of two fermionic operators (and only those) flips the '
-                      'sign, and only when the pair is actually swapped', f.lineno)
+                      'sign, and only when the pair is actually swapped: ' + why, f.lineno)
+
+
+def _swap_sign_defect(f):
+    """bubble sort of (op, site, fermionic) triples: the sign flip `sign = -sign` is guarded by
+    exactly: the adjacent elements X = T[s], Y = T[s+1] are out of order (X[1] > Y[1]) and both
+    are fermionic (X[2] and Y[2]); the swap itself is guarded by the order test only."""
+    flips = [n for n, _ in find('$sg = -$sg', f)] + [n for n, _ in find('$sg *= -1', f)] + \
+        [n for n, _ in find('$sg = $sg * -1', f)]
+    if len(flips) != 1:
+        return '%d sign flips found' % len(flips)
+    flip = flips[0]
+    g = guards_of(f, flip)
+    order = [x for x in g if pmatch('$a[1] > $b[1]', x[2]) or pmatch('$b[1] < $a[1]', x[2])]
+    if len(order) != 1 or not order[0][1]:
+        return 'the flip is not guarded by one comparison of the site indices'
+    e = pmatch('$a[1] > $b[1]', order[0][2]) or pmatch('$b[1] < $a[1]', order[0][2])
+    X, Y = e['$a'], e['$b']
+    ferm = {t for t, pol, _ in g if pol}
+    if '%s[2]' % X not in ferm or '%s[2]' % Y not in ferm:
+        return 'the flip must require both `%s[2]` and `%s[2]` (both operators fermionic); it ' \
+            'requires %s' % (X, Y, sorted(ferm))
+    extra = [(t, pol) for t, pol, _ in g if t not in ('%s[2]' % X, '%s[2]' % Y, order[0][0])]
+    if extra:
+        return 'the flip depends on additional conditions %s' % extra
+    # X, Y are adjacent elements s, s+1 of one list
+    L = s = None
+    for n, e2 in find('$x, $y = $l[$s:$s + 2]', f):
+        if e2['$x'] == X and e2['$y'] == Y:
+            L, s = e2['$l'], e2['$s']
+    dx = [e2 for n, e2 in find('%s = $l[$s]' % X, f)]
+    dy = [e2 for n, e2 in find('%s = $l[$s + 1]' % Y, f)]
+    if dx and dy and dx[0]['$l'] == dy[0]['$l'] and dx[0]['$s'] == dy[0]['$s']:
+        L, s = dx[0]['$l'], dx[0]['$s']
+    if L is None:
+        return '`%s`, `%s` are not the adjacent elements [s], [s+1] of one list' % (X, Y)
+    # the swap: under the order guard only
+    swaps = [n for n, _ in find('%s[%s], %s[%s + 1] = %s, %s' % (L, s, L, s, Y, X), f)]
+    a = [n for n, _ in find('%s[%s] = %s' % (L, s, Y), f)]
+    b = [n for n, _ in find('%s[%s + 1] = %s' % (L, s, X), f)]
+    if not swaps and not (a and b):
+        return 'the swap of `%s[%s]` and `%s[%s+1]` was not found' % (L, s, L, s)
+    for n in swaps + a + b:
+        gs = [(t, pol) for t, pol, _ in guards_of(f, n)]
+        if gs != [(order[0][0], True)]:
+            return 'the swap must be guarded by the order test alone (guards %s)' % gs
+    return None
 
 
 def check_owned_attrs(prog, rep, modules=(TERMS, SITE)):
